@@ -62,11 +62,19 @@ class HashedIterable(Generic[T]):
 
     def __post_init__(self):
         if self.iterable and not isinstance(self.iterable, HashedIterable):
-            self.iterable = (HashedValue(v) if not isinstance(v, HashedValue) else v for v in self.iterable)
+            self.iterable = self._hashing_(self.iterable)
 
     def set_iterable(self, iterable):
         if iterable and not isinstance(iterable, HashedIterable):
-            self.iterable = (HashedValue(v) if not isinstance(v, HashedValue) else v for v in iterable)
+            self.iterable = self._hashing_(iterable)
+
+    @staticmethod
+    def _hashing_(iterable):
+        """
+        The values of the iterable, hashed, as they are asked for. (A map object, not a generator expression: when the
+        source raises once - user code - a generator would be finished for good and the rest of the source lost.)
+        """
+        return map(lambda v: v if isinstance(v, HashedValue) else HashedValue(v), iterable)
 
     def get(self, key: int, default: Any) -> HashedValue[T]:
         return self.values.get(key, default)
